@@ -48,6 +48,9 @@ def make_frames(rng, n):
     for _ in range(rng.choice((0, 1, 2))):
         if len(out) > 2:
             out[rng.randrange(1, len(out))] = out[rng.randrange(0, len(out) - 1)]
+    if len(out) > 3 and rng.random() < 0.5:  # ... and some directly behind their original
+        j = rng.randrange(0, len(out) - 1)
+        out[j + 1] = out[j]
     return out
 
 
@@ -104,7 +107,9 @@ def run_case(ctx, frames, damage, mode, handler, backend="file"):
     if handler:
         ctx.hit(f"handler_kind:{('function', 'bound-method', 'partial', 'falsy-callable-object')[hkind]}")
     feeder = None
-    if backend == "file":
+    if backend == "serial":  # the surface of a pyserial port: in_waiting, reset_input_buffer() ...
+        stream = doubles.SerialLikeStream(data, budget=3 * len(data) + 16)
+    elif backend == "file":
         stream = doubles.RecordingStream(data, budget=3 * len(data) + 16)
     elif backend == "buffered":  # BufferedReader over a non-seekable raw stream
         stream = io.BufferedReader(doubles.RawChunky(data, (7, 64, 3, 1000)), buffer_size=64)
@@ -258,11 +263,21 @@ def run(ctx):
         subsets.append([j, j + 1])
         for _ in range(4):
             subsets.append(sorted(rng.sample(range(n), rng.randint(1, n))))
+        twins = [i for i in range(n - 1) if frames[i] == frames[i + 1]]
+        for i in twins[:1]:
+            # consecutive identical frames: the second damaged in the checksum only; both damaged identically
+            nbf = len(frames[i]) * 8
+            crcpos = [nbf - 24 + rng.randrange(24)]
+            same = damage_for(rng, frames[i])
+            for dmg_ in ({i + 1: crcpos}, {i: same, i + 1: same}, {i: crcpos, i + 1: crcpos}):
+                mode, handler = combos[(it + i) % 6]
+                run_case(ctx, frames, dmg_, mode, handler, ("file", "bytesio", "socket", "serial")[(it + i) % 4])
+            ctx.hit("consecutive_twin_damage")
         for k, sub in enumerate(subsets):
             mode, handler = combos[(it + k) % 6]
             damage = {i: damage_for(rng, frames[i]) for i in sub}
             run_case(ctx, frames, damage, mode, handler,
-                     ("file", "socket", "bytesio", "buffered", "file", "pipe", "file", "makefile")[k % 8])
+                     ("file", "socket", "bytesio", "buffered", "serial", "pipe", "file", "makefile", "serial")[k % 9])
         # bit-position sweep on one frame
         i = rng.randrange(n)
         nb = len(frames[i]) * 8
